@@ -17,7 +17,6 @@ theorem trG_b (hl : ∀ s, (cfg.lower s).length = s.length) (n : Nat) (ih : Tran
   | unit => have := H.fb; unfold Ty.TG at this; exact absurd this id
   | data => have := H.fb; unfold Ty.TG at this; exact absurd this id
   | richData => have := H.fb; unfold Ty.TG at this; exact absurd this id
-  | iterable _ => have := H.fb; unfold Ty.TG at this; exact absurd this id
   | optional ob =>
     have fb := H.fb; unfold Ty.TG at fb
     have wb := H.wb; unfold Ty.WF at wb
@@ -160,7 +159,6 @@ theorem transG_all (hl : ∀ s, (cfg.lower s).length = s.length) : ∀ n, TransG
     | unit => have := H.fc; unfold Ty.TG at this; exact absurd this id
     | data => have := H.fc; unfold Ty.TG at this; exact absurd this id
     | richData => have := H.fc; unfold Ty.TG at this; exact absurd this id
-    | iterable _ => have := H.fc; unfold Ty.TG at this; exact absurd this id
     | optional oc =>
       have fc := H.fc; unfold Ty.TG at fc
       have wc := H.wc; unfold Ty.WF at wc
@@ -191,17 +189,17 @@ theorem transG_all (hl : ∀ s, (cfg.lower s).length = s.length) : ∀ n, TransG
         exact asg_nu_of_strict cfg sfh hnc' this
     | _ => exact trG_b cfg sfh hl n ih a b _ hw H hA' rfl h1 h2
 
-/-- The fragment of `C03_trans_struct_partial`, shape only: hereditarily none of Unit, Iterable, Data / RichData; Struct (members of any
-    nesting) only with the Struct-from-Hash rule off.  `Ty.TS true` is `Ty.TF`. -/
+/-- The fragment of `C03_trans_struct_partial`, shape only: hereditarily none of Unit, Data / RichData; Struct (members of any
+    nesting) only with the Struct-from-Hash rule off.  `Ty.TS true` is `Ty.TF` plus Iterable. -/
 def Ty.TS (sfh : Bool) (t : Ty) : Prop :=
   match t with
-  | .unit | .data | .richData | .iterable _ => False
+  | .unit | .data | .richData => False
   | .struct ms => sfh = false ∧ ∀ m, ∀ (_ : m ∈ ms), Ty.TS sfh m.2.2
   | .tuple ts _ => ∀ t', ∀ (_ : t' ∈ ts), Ty.TS sfh t'
   | .array e _ => Ty.TS sfh e
   | .hash k v _ => Ty.TS sfh k ∧ Ty.TS sfh v
   | .variant ts => ∀ t', ∀ (_ : t' ∈ ts), Ty.TS sfh t'
-  | .optional t' | .notUndef t' | .sensitive t' | .typ t' => Ty.TS sfh t'
+  | .optional t' | .notUndef t' | .sensitive t' | .typ t' | .iterable t' => Ty.TS sfh t'
   | _ => True
 termination_by t.w
 decreasing_by
@@ -226,6 +224,7 @@ theorem Ty.TS.tg : ∀ (n : Nat) (t : Ty), t.w ≤ n → t.TS sfh → Ty.WF cfg 
     · exact fun t' hm => ih t' (by have := Ty.w_lt_wl hm; omega) (h t' hm) (wf t' hm)
     · exact ⟨h.1, wf.1, fun m hm => ih m.2.2 (by have := Ty.w_lt_wm hm; omega) (h.2 m hm) (wf.2 m hm)⟩
     · exact fun t' hm => ih t' (by have := Ty.w_lt_wl hm; omega) (h t' hm) (wf t' hm)
+    · exact ih _ (by omega) h wf
     · exact ih _ (by omega) h wf
     · exact ih _ (by omega) h wf
     · exact ih _ (by omega) h wf
